@@ -635,3 +635,43 @@ class RealFloat___hash__(Contract):
 
     def raises(self):
         return {}
+
+
+# ---------------------------------------------------------------------------
+# normalisation (H4): value-preserving, or ValueError exactly when no such encoding exists
+
+class RealFloat_normalize(Contract):
+    target = 'fpy2.number.number.reals:RealFloat.normalize'
+    params = {'self': 'RealFloat', 'p': 'int | None', 'n': 'int | None'}
+    returns = 'RealFloat'
+    properties = ['C05']
+    split = ['p', 'n']
+
+    def post(self, p, n, result):
+        r = result
+        out = {
+            'fresh': not same_obj(r, self),
+            'wf': r._c >= 0,
+            # same value, same sign (of zero too)
+            'sign': r._s == self._s,
+            'value': t_mag_eq(trip(r), trip(self)),
+            'flags_clear': flags_clear(r),
+        }
+        if p is None and n is None:
+            out.update({'copy': r._exp == self._exp and r._c == self._c})
+        if p is not None and n is None:
+            out.update({'exactly_p_digits': implies(self._c != 0, bl(r._c) == p),
+                        'zero': implies(self._c == 0, r._c == 0)})
+        if p is None and n is not None:
+            out.update({'exp_is_n_plus_1': r._exp == n + 1})
+        if p is not None and n is not None:
+            out.update({'above_n': r._exp > n,
+                        'at_most_p_digits': bl(r._c) <= p,
+                        # maximal precision: p digits unless the position bound n stops the shift
+                        'maximal': implies(self._c != 0, bl(r._c) == p or r._exp == n + 1)})
+        return out
+
+    def raises(self, p, n):
+        return {'ValueError': (p is not None and p < 0)
+                              or (p is not None and not fits_p(self, p))
+                              or (n is not None and not on_grid(self, n))}
